@@ -380,18 +380,54 @@ type Recorder struct {
 	Ops        []Op
 	cSel, nSel uint8
 	Reads      int // CSel()/NSel() calls
+	// Inner, when set, receives every call after it is recorded, and answers
+	// selector reads.
+	Inner ivg.Destination
+	// After, when set, runs after each call (and after Inner handled it).
+	After func(Op)
+	// NoRecord keeps Ops empty (Count still advances).
+	NoRecord bool
+	Count    int
 }
 
 var _ ivg.Destination = (*Recorder)(nil)
 
-func (r *Recorder) add(o Op) { r.Ops = append(r.Ops, o) }
+func (r *Recorder) add(o Op) {
+	r.Count++
+	if !r.NoRecord {
+		r.Ops = append(r.Ops, o)
+	}
+	if r.Inner != nil {
+		Apply(r.Inner, o)
+	}
+	if r.After != nil {
+		r.After(o)
+	}
+}
 
 func (r *Recorder) Reset(vb ivg.ViewBox, pal [64]color.RGBA) {
 	r.cSel, r.nSel = 0, 0
 	r.add(OpReset(vb, pal))
 }
-func (r *Recorder) CSel() uint8 { r.Reads++; return r.cSel }
-func (r *Recorder) NSel() uint8 { r.Reads++; return r.nSel }
+func (r *Recorder) CSel() uint8 {
+	r.Reads++
+	if r.Inner != nil {
+		return r.Inner.CSel()
+	}
+	return r.cSel
+}
+func (r *Recorder) NSel() uint8 {
+	r.Reads++
+	if r.Inner != nil {
+		return r.Inner.NSel()
+	}
+	return r.nSel
+}
+
+// ModelCSel and ModelNSel are the selector values of the specification's
+// machine (independent of Inner).
+func (r *Recorder) ModelCSel() uint8 { return r.cSel }
+func (r *Recorder) ModelNSel() uint8 { return r.nSel }
 func (r *Recorder) SetCSel(s uint8) {
 	r.cSel = s & 0x3f
 	r.add(OpSetCSel(s))
@@ -445,18 +481,6 @@ func (r *Recorder) AbsArcTo(rx, ry, rot float32, la, sw bool, x, y float32) {
 func (r *Recorder) RelArcTo(rx, ry, rot float32, la, sw bool, x, y float32) {
 	r.add(OpArc(RelArcTo, rx, ry, rot, la, sw, x, y))
 }
-
-// Tee fans one call stream out to several Destinations; selector reads come
-// from the first.
-type Tee []ivg.Destination
-
-func (t Tee) Reset(vb ivg.ViewBox, pal [64]color.RGBA) {
-	for _, d := range t {
-		d.Reset(vb, pal)
-	}
-}
-func (t Tee) CSel() uint8 { return t[0].CSel() }
-func (t Tee) NSel() uint8 { return t[0].NSel() }
 
 // SameOp reports exact equality of two ops: kinds, flags, colours, and numbers
 // bit-for-bit (all NaNs one class).
